@@ -315,7 +315,15 @@ class Plugin:
             try:
                 return strax.deterministic_hash(obj)
             except TypeError:
-                return str(obj)
+                pass
+            # Never fall back to str(obj): for e.g. properties it contains
+            # a memory address, which differs for every process
+            if isinstance(obj, property):
+                try:
+                    return strax.deterministic_hash(inspect.getsource(obj.fget))
+                except (TypeError, OSError):
+                    pass
+            return type(obj).__name__
 
         res = {attr: _return_hashable(attr) for attr in attributes}
         return "auto_" + strax.deterministic_hash(res)
